@@ -209,4 +209,260 @@ example : (Stack.index ⟨1, 12, 2, ⟨0, 5, 0, 4⟩⟩ (-2)).toOption.map Stack
 example : Stack.index ⟨1, 12, 2, ⟨0, 5, 0, 4⟩⟩ 6 = .error .index := by decide
 example : Stack.index ⟨1, 12, 2, ⟨0, 5, 0, 4⟩⟩ (-7) = .error .index := by decide
 
+/-! ## Cropping and frame selection are independent -/
+
+/-- `crop_by_pixels` never changes which frames are selected (finding F2 was that it did). -/
+theorem crop_preserves_frames (s s' : Stack) (x0 x1 y0 y1 : Option Int)
+    (h : s.cropPixels x0 x1 y0 y1 = .ok s') :
+    s'.frames = s.frames ∧ s'.s0 = s.s0 ∧ s'.s1 = s.s1 ∧ s'.st = s.st := by
+  unfold Stack.cropPixels at h
+  cases hr : s.roi.crop x0 x1 y0 y1 with
+  | error e => rw [hr] at h; cases h
+  | ok r =>
+    rw [hr] at h
+    injection h with h
+    subst h
+    exact ⟨rfl, rfl, rfl, rfl⟩
+
+/-- Frame selection (slice or integer) never changes the ROI. -/
+theorem frames_preserve_roi (s s' : Stack) (f : Item) (h : s.frameItem f = .ok s') : s'.roi = s.roi := by
+  cases f with
+  | int i =>
+    unfold Stack.frameItem Stack.index at h
+    simp only at h
+    generalize (if i ≥ 0 then i else i + s.numFrames) = idx at h
+    by_cases hc : s.s0 + s.st * idx < s.s0 ∨ s.s0 + s.st * idx ≥ s.s1
+    · rw [if_pos hc] at h; cases h
+    · rw [if_neg hc] at h; injection h with h; subst h; rfl
+  | slice a b c =>
+    unfold Stack.frameItem Stack.sliceFrames at h
+    simp only at h
+    generalize sliceIndices a b (c.getD 1) s.numFrames = ij at h
+    by_cases h0 : c.getD 1 = 0
+    · rw [if_pos h0] at h; cases h
+    · rw [if_neg h0] at h
+      split at h
+      · cases h
+      · split at h
+        · cases h
+        · injection h with h; subst h; rfl
+
+/-- The frame arithmetic does not look at the ROI. -/
+theorem frameItem_roi_indep (s : Stack) (r : Roi) (f : Item) :
+    Stack.frameItem { s with roi := r } f = (s.frameItem f).map fun t => { t with roi := r } := by
+  cases f with
+  | int i =>
+    have key : ∀ idx : Int,
+        (if s.s0 + s.st * idx < s.s0 ∨ s.s0 + s.st * idx ≥ s.s1 then (Except.error Err.index : Except Err Stack)
+          else .ok ⟨s.s0 + s.st * idx, s.s0 + s.st * idx + s.st, s.st, r⟩) =
+        Except.map (fun t : Stack => ({ t with roi := r } : Stack))
+          (if s.s0 + s.st * idx < s.s0 ∨ s.s0 + s.st * idx ≥ s.s1 then (Except.error Err.index : Except Err Stack)
+            else .ok ⟨s.s0 + s.st * idx, s.s0 + s.st * idx + s.st, s.st, s.roi⟩) := by
+      intro idx
+      by_cases hc : s.s0 + s.st * idx < s.s0 ∨ s.s0 + s.st * idx ≥ s.s1
+      · rw [if_pos hc, if_pos hc]; rfl
+      · rw [if_neg hc, if_neg hc]; rfl
+    exact key _
+  | slice a b c =>
+    have key : ∀ (cv : Int) (ij : Int × Int),
+        (if cv = 0 then (Except.error Err.value : Except Err Stack)
+          else if s.s0 + s.st * ij.2 = s.s0 + s.st * ij.1 ∨
+              (s.s0 + s.st * ij.2 - (s.s0 + s.st * ij.1)).sign ≠ (s.st * cv).sign then .error .empty
+          else if s.st * cv < 0 then .error .reverse
+          else .ok ⟨s.s0 + s.st * ij.1, s.s0 + s.st * ij.2, s.st * cv, r⟩) =
+        Except.map (fun t : Stack => ({ t with roi := r } : Stack))
+          (if cv = 0 then (Except.error Err.value : Except Err Stack)
+          else if s.s0 + s.st * ij.2 = s.s0 + s.st * ij.1 ∨
+              (s.s0 + s.st * ij.2 - (s.s0 + s.st * ij.1)).sign ≠ (s.st * cv).sign then .error .empty
+          else if s.st * cv < 0 then .error .reverse
+          else .ok ⟨s.s0 + s.st * ij.1, s.s0 + s.st * ij.2, s.st * cv, s.roi⟩) := by
+      intro cv ij
+      by_cases h0 : cv = 0
+      · rw [if_pos h0, if_pos h0]; rfl
+      · rw [if_neg h0, if_neg h0]
+        by_cases h1 : s.s0 + s.st * ij.2 = s.s0 + s.st * ij.1 ∨
+            (s.s0 + s.st * ij.2 - (s.s0 + s.st * ij.1)).sign ≠ (s.st * cv).sign
+        · rw [if_pos h1, if_pos h1]; rfl
+        · rw [if_neg h1, if_neg h1]
+          by_cases h2 : s.st * cv < 0
+          · rw [if_pos h2, if_pos h2]; rfl
+          · rw [if_neg h2, if_neg h2]; rfl
+    exact key _ _
+
+/-- Cropping and frame selection commute: `s.crop(r)[f]` and `s[f].crop(r)` are the same stack, and one
+    raises iff the other does. -/
+theorem crop_frames_commute (s : Stack) (f : Item) (x0 x1 y0 y1 : Option Int) :
+    ((s.cropPixels x0 x1 y0 y1).bind (·.frameItem f)).toOption =
+      ((s.frameItem f).bind (·.cropPixels x0 x1 y0 y1)).toOption := by
+  unfold Stack.cropPixels
+  cases hr : s.roi.crop x0 x1 y0 y1 with
+  | error e =>
+    cases hf : s.frameItem f with
+    | error e' => rfl
+    | ok t =>
+      have := frames_preserve_roi s t f hf
+      simp only [Except.bind, Except.map, this, hr]
+  | ok r =>
+    simp only [Except.map, Except.bind]
+    rw [frameItem_roi_indep]
+    cases hf : s.frameItem f with
+    | error e' => rfl
+    | ok t =>
+      have := frames_preserve_roi s t f hf
+      simp only [Except.map, this, hr]
+
+/-- A tuple index `s[f, rows, cols]` is the crop followed by the frame selection. -/
+theorem getitem_tuple_decomposes (s : Stack) (f : Item) (ra rb ca cb : Option Int) :
+    s.getitemTuple [f, .slice ra rb none, .slice ca cb none] =
+      (s.cropPixels ca cb ra rb).bind (·.frameItem f) := by
+  unfold Stack.getitemTuple Stack.cropPixels
+  simp [interpretCrop, bind, Except.bind, Except.map, pure, Except.pure]
+  cases hr : s.roi.crop ca cb ra rb with
+  | error e => rfl
+  | ok r =>
+    simp only
+    rw [frameItem_roi_indep s r f]
+    cases s.frameItem f <;> rfl
+
+/-- Non-vacuity of `crop_frames_commute`: both orders succeed and give frames `[1,3,5]`, ROI `(1,3,0,3)`. -/
+example : ((Stack.cropPixels ⟨0, 6, 1, ⟨0, 5, 0, 4⟩⟩ (some 1) (some 3) none (some (-1))).bind
+    (·.frameItem (.slice (some 1) none (some 2)))) = .ok ⟨1, 6, 2, ⟨1, 3, 0, 3⟩⟩ := by decide
+
+/-! ## Finding F2: the pinned crop drops the step, kernel-checked -/
+
+/-- `stack[::2].crop_by_pixels(1, 3, None, None)` on the pinned snapshot shows all six frames again. -/
+theorem F2_witness :
+    (Stack.cropPixelsUnfixed ⟨0, 6, 2, ⟨0, 5, 0, 4⟩⟩ (some 1) (some 3) none none).toOption.map Stack.frames
+      ≠ some (Stack.frames ⟨0, 6, 2, ⟨0, 5, 0, 4⟩⟩) := by decide
+
+/-- The same input on the repaired code (instance of `crop_preserves_frames`). -/
+example : (Stack.cropPixels ⟨0, 6, 2, ⟨0, 5, 0, 4⟩⟩ (some 1) (some 3) none none).toOption.map Stack.frames
+      = some [0, 2, 4] := by decide
+
+/-! ## ROI re-cropping is NumPy slicing of the current image -/
+
+/-- The ROI lies inside a raw image of `H` rows and `W` columns and is not empty. -/
+def Roi.Within (r : Roi) (H W : Nat) : Prop :=
+  0 ≤ r.xMin ∧ r.xMin < r.xMax ∧ r.xMax ≤ W ∧ 0 ≤ r.yMin ∧ r.yMin < r.yMax ∧ r.yMax ≤ H
+
+/-- `Roi.crop` then `Roi.__call__` on the raw image is the NumPy slice `[y0:y1, x0:x1]` of the currently
+    visible image — for `None`, negative and out-of-range bounds; the new ROI stays inside the raw image and
+    non-empty; and the code raises (`ValueError`, "Max must be larger than min") exactly when that NumPy
+    slice has no pixels. -/
+theorem roi_crop_refines {α} (raw : List (List α)) (H W : Nat) (hH : raw.length = H)
+    (hW : ∀ row ∈ raw, row.length = W) (r : Roi) (hr : r.Within H W) (x0 x1 y0 y1 : Option Int) :
+    match r.crop x0 x1 y0 y1 with
+    | .ok r' => r'.apply raw = pySlice2 (r.apply raw) x0 x1 y0 y1 ∧ r'.Within H W
+    | .error e => e = .value ∧ (pySlice2 (r.apply raw) x0 x1 y0 y1).flatten = [] := by
+  obtain ⟨hx0, hx01, hx1, hy0, hy01, hy1⟩ := hr
+  have hrows := crop1 raw r.yMin r.yMax hy0 (by omega) (by omega) y0 y1 0 (r.yMax - r.yMin)
+    (fun _ => rfl) (fun _ => rfl)
+  have hcols : ∀ row ∈ raw, pySlice row (cropBound (r.xMax - r.xMin) 0 x0 + r.xMin)
+      (cropBound (r.xMax - r.xMin) (r.xMax - r.xMin) x1 + r.xMin) = pySliceOpt (pySlice row r.xMin r.xMax) x0 x1 := by
+    intro row hrow
+    exact crop1 row r.xMin r.xMax hx0 (by omega) (by rw [hW row hrow]; omega) x0 x1 0 (r.xMax - r.xMin)
+      (fun _ => rfl) (fun _ => rfl)
+  have key : Roi.apply ⟨cropBound (r.xMax - r.xMin) 0 x0 + r.xMin,
+        cropBound (r.xMax - r.xMin) (r.xMax - r.xMin) x1 + r.xMin,
+        cropBound (r.yMax - r.yMin) 0 y0 + r.yMin,
+        cropBound (r.yMax - r.yMin) (r.yMax - r.yMin) y1 + r.yMin⟩ raw
+      = pySlice2 (r.apply raw) x0 x1 y0 y1 := by
+    unfold Roi.apply pySlice2
+    simp only
+    rw [hrows, pySliceOpt_map, List.map_map]
+    apply List.map_congr_left
+    intro row hrow
+    exact hcols row (mem_of_mem_pySlice (mem_of_mem_pySliceOpt hrow))
+  have bx0 := cropBound_range (r.xMax - r.xMin) 0 x0 (by omega)
+  have bx1 := cropBound_range (r.xMax - r.xMin) (r.xMax - r.xMin) x1 (by omega)
+  have by0 := cropBound_range (r.yMax - r.yMin) 0 y0 (by omega)
+  have by1 := cropBound_range (r.yMax - r.yMin) (r.yMax - r.yMin) y1 (by omega)
+  unfold Roi.crop Roi.make Roi.width Roi.height
+  simp only
+  generalize hX0 : cropBound (r.xMax - r.xMin) 0 x0 + r.xMin = X0 at *
+  generalize hX1 : cropBound (r.xMax - r.xMin) (r.xMax - r.xMin) x1 + r.xMin = X1 at *
+  generalize hY0 : cropBound (r.yMax - r.yMin) 0 y0 + r.yMin = Y0 at *
+  generalize hY1 : cropBound (r.yMax - r.yMin) (r.yMax - r.yMin) y1 + r.yMin = Y1 at *
+  rw [if_neg (by omega)]
+  by_cases hbad : X1 ≤ X0 ∨ Y1 ≤ Y0
+  · rw [if_pos hbad]
+    refine ⟨rfl, ?_⟩
+    rw [← key]
+    exact apply_empty _ _ hbad (by simp only; omega)
+  · rw [if_neg hbad]
+    refine ⟨key, ?_⟩
+    unfold Roi.Within
+    simp only
+    omega
+
+/-- Non-vacuity: negative and clipped bounds on an already cropped image. -/
+example : (Roi.crop ⟨1, 5, 1, 4⟩ (some (-3)) (some 99) none (some (-1))) = .ok ⟨2, 5, 1, 3⟩ := by decide
+example : (Roi.crop ⟨1, 5, 1, 4⟩ (some 3) (some 2) none none) = .error .value := by decide
+example : Roi.Within ⟨1, 5, 1, 4⟩ 4 5 := by unfold Roi.Within; decide
+
+/-- Shape of the visible image: `height × width` of the ROI. -/
+theorem roi_apply_shape {α} (raw : List (List α)) (H W : Nat) (hH : raw.length = H)
+    (hW : ∀ row ∈ raw, row.length = W) (r : Roi) (hr : r.Within H W) :
+    ((r.apply raw).length : Int) = r.height ∧ ∀ row ∈ r.apply raw, (row.length : Int) = r.width := by
+  obtain ⟨hx0, hx01, hx1, hy0, hy01, hy1⟩ := hr
+  unfold Roi.apply Roi.height Roi.width
+  constructor
+  · rw [List.length_map, pySlice_nonneg' _ _ _ hy0 (by omega)]
+    simp only [List.length_drop, List.length_take]; omega
+  · intro row hrow
+    rw [List.mem_map] at hrow
+    obtain ⟨row0, h0, rfl⟩ := hrow
+    have := hW row0 (mem_of_mem_pySlice h0)
+    rw [pySlice_nonneg' _ _ _ hx0 (by omega)]
+    simp only [List.length_drop, List.length_take]; omega
+
+/-! ## Legacy frame ranges -/
+
+/-- `_frame_timestamps_from_exposure_timestamps`: as many ranges as frames; every frame but the last
+    runs from its own start to the next frame's start (so the ranges are contiguous); the last one is as
+    long as the distance of the last two starts (or keeps its stop when it is alone). -/
+theorem legacy_frame_ranges (ts : List (Int × Int)) (hne : ts ≠ []) :
+    ∃ r, legacyRanges ts = some r ∧ r.length = ts.length ∧
+      (∀ i, i + 1 < ts.length → r[i]? = (ts[i]?.bind fun a => ts[i + 1]?.map fun b => (a.1, b.1))) ∧
+      r[ts.length - 1]? = (ts.getLast?.map fun last =>
+        (last.1, match ts[ts.length - 2]? with
+          | some prev => if 2 ≤ ts.length then last.1 + (last.1 - prev.1) else last.2
+          | none => last.2)) := by
+  obtain ⟨last, hlast⟩ : ∃ last, ts.getLast? = some last := by
+    cases h : ts.getLast? with
+    | none => exact absurd (List.getLast?_eq_none_iff.mp h) hne
+    | some l => exact ⟨l, rfl⟩
+  have hlen : 0 < ts.length := List.length_pos_iff.mpr hne
+  have hbody : ((ts.zip (ts.drop 1)).map fun (x : (Int × Int) × (Int × Int)) => (x.1.1, x.2.1)).length
+      = ts.length - 1 := by
+    simp only [List.length_map, List.length_zip, List.length_drop]; omega
+  unfold legacyRanges
+  rw [hlast]
+  refine ⟨_, rfl, ?_, ?_, ?_⟩
+  · rw [List.length_append, hbody]; simp; omega
+  · intro i hi
+    have : (ts.zip (ts.drop 1))[i]? = some (ts[i], ts[i + 1]) := by
+      rw [List.getElem?_zip_eq_some]
+      refine ⟨List.getElem?_eq_getElem _, ?_⟩
+      rw [List.getElem?_drop, List.getElem?_eq_getElem (by omega)]
+      congr 2; omega
+    rw [List.getElem?_append_left (by rw [hbody]; omega), List.getElem?_map, this,
+      List.getElem?_eq_getElem (by omega : i < ts.length),
+      List.getElem?_eq_getElem (by omega : i + 1 < ts.length)]
+    rfl
+  · rw [List.getElem?_append_right (by rw [hbody]; omega), hbody]
+    simp only [Nat.sub_self, List.getElem?_cons_zero, Option.map_some, Option.some.injEq, Prod.mk.injEq,
+      true_and]
+    by_cases h2 : 2 ≤ ts.length
+    · rw [if_pos h2]
+      rw [List.getElem?_eq_getElem (by omega : ts.length - 2 < ts.length)]
+      simp [h2]
+    · rw [if_neg h2]
+      have : ts.length - 2 = 0 := by omega
+      rw [this]
+      cases ts[0]? <;> simp [h2]
+
+example : legacyRanges [(10, 18), (20, 28), (35, 43)] = some [(10, 20), (20, 35), (35, 50)] := by decide
+example : legacyRanges [(10, 18)] = some [(10, 18)] := by decide
+
 end Verif.C07
